@@ -186,8 +186,8 @@ def run(ck):
     # ---- (B)
     n2 = gen_corpus("N2", module="gen/Gen_Portfolio", deps=DEPS)
     n3 = gen_corpus("N3", module="gen/Gen_Portfolio", deps=DEPS)
-    a2 = ck.rng.sample(n2, 90 if quick else len(n2))
-    a3 = ck.rng.sample(n3, 60 if quick else 2500)
+    a2 = ck.rng.sample(n2, min(len(n2), 90 if quick else len(n2)))
+    a3 = ck.rng.sample(n3, min(len(n3), 60 if quick else 2500))
     # make sure the all-fail vectors are present
     allfail = [s for s in n2 if all(b != "ans" and b != "crash_post" for b in s["beh"]) and not s["late"]][:: (12 if quick else 1)]
     scheds = a2 + a3 + allfail
